@@ -121,7 +121,7 @@ func (r *scopeRegistry) Report(reporter StatsReporter) {
 			s.report(reporter)
 
 			if s.closed.Load() {
-				r.removeWithRLock(subscopeBucket, name)
+				r.removeWithRLock(subscopeBucket, name, s)
 				s.clearMetrics()
 			}
 		}
@@ -141,7 +141,7 @@ func (r *scopeRegistry) CachedReport() {
 			s.cachedReport()
 
 			if s.closed.Load() {
-				r.removeWithRLock(subscopeBucket, name)
+				r.removeWithRLock(subscopeBucket, name, s)
 				s.clearMetrics()
 			}
 		}
@@ -208,8 +208,8 @@ func (r *scopeRegistry) Subscope(parent *scope, prefix string, tags map[string]s
 	// If a scope was found above but we didn't return, we need to remove the
 	// scope from both keys.
 	if ok {
-		r.removeWithRLock(subscopeBucket, unsanitizedKey)
-		r.removeWithRLock(subscopeBucket, sanitizedKey)
+		r.removeWithRLock(subscopeBucket, unsanitizedKey, s)
+		r.removeWithRLock(subscopeBucket, sanitizedKey, s)
 		s.clearMetrics()
 	}
 
@@ -286,14 +286,19 @@ func (r *scopeRegistry) purgeIfRootClosed() {
 	}
 }
 
-func (r *scopeRegistry) removeWithRLock(subscopeBucket *scopeBucket, key string) {
+func (r *scopeRegistry) removeWithRLock(subscopeBucket *scopeBucket, key string, s *scope) {
 	// n.b. This function must lock the registry for writing and return it to an
 	//      RLocked state prior to exiting. Defer order is important (LIFO).
 	subscopeBucket.mu.RUnlock()
 	defer subscopeBucket.mu.RLock()
 	subscopeBucket.mu.Lock()
 	defer subscopeBucket.mu.Unlock()
-	delete(subscopeBucket.s, key)
+	// The read lock was dropped above: by now another goroutine may have
+	// replaced the closed scope under this key with a live one. Remove the
+	// entry only if it is still the scope being retired.
+	if cur, ok := subscopeBucket.s[key]; ok && cur == s {
+		delete(subscopeBucket.s, key)
+	}
 }
 
 // Records internal Metrics' cardinalities.
